@@ -1142,7 +1142,9 @@ DLLIMPORT cfg_value_t *cfg_setopt(cfg_t *cfg, cfg_opt_t *opt, const char *value)
 			/* build the new section completely before it becomes reachable */
 			cfg_t *sec = cfg_new_section(cfg, opt, value);
 
-			if (sec && !is_set(CFGF_DEFINIT, opt->flags) && cfg_init_defaults(sec) != CFG_SUCCESS) {
+			/* every new instance gets the declared defaults, also a single
+			 * section that is created again after it was removed */
+			if (sec && cfg_init_defaults(sec) != CFG_SUCCESS) {
 				cfg_free(sec);
 				sec = NULL;
 			}
